@@ -371,6 +371,7 @@ func (it *Interp) abstractFindCommand(g *G, appid, code *Term) Value {
 			it.pc = append(it.pc, c)
 		}
 	}
+	it.pc = append(it.pc, ts.Eq(nreq, nans)) // one rule-count variable: only "no rules at all" vs "some" matters to the decoder
 	it.cmdLookups = append(it.cmdLookups, dictLookup{app: appid, code: code, found: fnd, nreq: nreq, nans: nans})
 	if !it.decide(ts.Eq(fnd, ts.Const(8, 1)), "dictionary: command defined") {
 		return Tuple{(*Ptr)(nil), it.newError("Could not find preloaded Command")}
